@@ -39,6 +39,7 @@ REQUIRED = {
         'integer-typed-series': 200,
         'pairs-falling': 1000,
         'head-mappings-checked': 100,
+        'head-mappings-with-identical-ordinates-on-another-clock': 30,
         'empty-series': 1,
         'regrid-calls-made-by-rise': 20,
         'regrid-calls-made-by-recession': 20,
@@ -209,6 +210,12 @@ def check_head_mapping_case(ctx, rng):
         x, y, st, _ = gen_series(rng)
         step = step or st
         series.append((x, y))
+    if rng.random() < 0.4:
+        # a second series with bit-identical ordinates on another clock (another sampling
+        # step, another start): its crossings are at other abscissae
+        x0, y0 = series[rng.randrange(len(series))]
+        series.append((float(rng.choice([0.0, 5e8])) + (x0 - x0[0]) * rng.choice([2.0, 0.5, 3.0]), y0.copy()))
+        rec.hit('head-mappings-with-identical-ordinates-on-another-clock')
     case = {'kind': 'head_mapping', 'series': [[list(map(float, x)), list(map(float, y))] for x, y in series], 'step': step}
     try:
         hm = fo.build_head_mapping(series, step)
